@@ -254,7 +254,8 @@ func (h *H) DiskClear(path string) {
 	old.Cur = old.Max
 	syscall.Setrlimit(syscall.RLIMIT_FSIZE, &old)
 }
-func (h *H) FailNext(kind string, n int) {}
+// FailNext works natively only in packages compiled with the vos shim (HarnessDef.OSSwap).
+func (h *H) FailNext(kind string, n int) { vos.FailNext(kind, n) }
 func (h *H) FSOps() int                  { return 0 }
 
 // CrashImage natively: the image bytes computed by the engine cannot be used (CRC and
